@@ -561,7 +561,9 @@ func normalizePath(dst, src []byte) []byte {
 	if n >= 0 && n+len(bytestr.StrSlashDotDot) == len(b) {
 		nn := bytes.LastIndexByte(b[:n], '/')
 		if nn < 0 {
-			return bytestr.StrSlash
+			// never hand out the shared bytestr.StrSlash: callers keep the result as their own
+			// buffer and later append into it
+			return append(b[:0], '/')
 		}
 		b = b[:nn+1]
 	}
